@@ -234,7 +234,7 @@ func runC13Case(spec c13Spec, hist []mocrelay.ClientMsg, cut int, ending, peer s
 	}
 	regc, regs := 0, 0
 	for _, r := range b.routers {
-		c, s := r.VerifRegistrySize()
+		c, s := registrySize(r)
 		regc += c
 		regs += s
 	}
